@@ -220,6 +220,19 @@ def run(ctx):
                 ok = ok and np.array_equal(r0, pc.get_peak_array_indices(a.astype(int)))
             ctx.oracle('same indices for list / int-dtype input', ok, inputs={'values': v})
     ctx.flush()
+    # ---- round 7 (hx_r7b): ulp-extremum series (gen.ulp_extremum_series / _exhaustive): neighbouring samples that differ in the last bits AT turning
+    # points, on plateaus and at the ends, at magnitudes 1e-3 .. 1e3 -- every double is a rational: the exact model and the exact clauses apply as they are
+    for label, v in gen.ulp_extremum_exhaustive(max_k=4 if ctx.tier == 'quick' else 5, offsets=(-1, 0, 1) if ctx.tier == 'quick' else (-2, -1, 0, 1, 3)):
+        ctx.hist(label)
+        one(v, True)
+    ctx.flush()
+    for i in range(250 if ctx.tier == 'quick' else 4000):
+        kind, v = gen.ulp_extremum_series(rng, gen.log_int(rng, 4, 60 if i % 10 else 400))
+        if len(set(v.tolist())) < 2:
+            continue
+        ctx.hist('ulp-extremum/' + kind)
+        one(tuple(float(x) for x in v), len(v) <= 200)
+    ctx.flush()
 
 
 
